@@ -42,6 +42,14 @@ Theorem C16_readings_available : forall (S : Type) stmts ls s s', Forall no_alar
   step S Return s = Some s' -> Forall (fun k => (Datatypes.S (length (outcomes S s)) <= k)%nat) (stamps S s).
 Proof. exact readings_available. Qed.
 
+(* without quiescence, quantified: with k acknowledgements still on their way when the first write() starts (k = 1 is
+   the recorded finding), completed writes still never outnumber handled acknowledgements, of which k belong to nobody:
+   write number i may return once the acknowledgement of statement i - k is handled -- at most k statements early *)
+Theorem C16_sync_stale : forall (S : Type) stmts k ls s, Forall no_alarm ls -> run S ls (init S stmts k) = Some s ->
+  (length (outcomes S s) <= termd S s)%nat /\
+  (length (received S s) + k = length (dev_pending S s) + nterm (from_dev S s) + termd S s)%nat.
+Proof. exact sync_stale. Qed.
+
 (* ERRORS SURFACE: an error / alarm / !! line handled by the reader makes the next write() that completes raise *)
 Theorem C16_error_surfaces : forall (S : Type) s1 s2 rest ls s3 s4,
   from_dev S s1 = LErr :: rest -> step S Read s1 = Some s2 ->
